@@ -38,13 +38,31 @@ func bitsOf(a hlref.Access) []int {
 }
 
 // c06create runs one creation attempt and applies the oracle.
-func c06create(rt *rapid.T, creator, requested hlref.Access, path string) (created bool) {
+// via "setuser": the creator's account starts out holding everything the request asks for, is logged in twice, and an
+// administrator's set-user then reduces it to creator while both sessions are connected; the later session creates.
+func c06create(rt *rapid.T, creator, requested hlref.Access, path string, via ...string) (created bool) {
 	creator = creator.Defined() // what an account file can hold
 	creator.Set(hlref.PrivCreateUser)
-	opt := hlsim.Options{Agreement: "a", Accounts: []hlsim.AccountSpec{acct("admin", "Admin", "adminpw", allAccess), {Login: "creator", Name: "Creator", Password: "cpw", Access: creator}}}
+	setuser := len(via) > 0 && via[0] == "setuser"
+	initial := creator
+	if setuser {
+		for _, b := range bitsOf(requested.Defined()) {
+			initial.Set(b)
+		}
+	}
+	opt := hlsim.Options{Agreement: "a", Accounts: []hlsim.AccountSpec{acct("admin", "Admin", "adminpw", allAccess), {Login: "creator", Name: "Creator", Password: "cpw", Access: initial}}}
 	inWorld(rt, opt, func(rt *rapid.T, w *hlsim.World) {
 		admin := loginAs(rt, w, "10.0.0.1:1", "admin", "adminpw", "admin")
+		if setuser {
+			loginAs(rt, w, "10.0.0.3:1", "creator", "cpw", "creator-first-session")
+		}
 		c := loginAs(rt, w, "10.0.0.2:1", "creator", "cpw", "creator")
+		if setuser {
+			if r := admin.Request(hlref.TranSetUser, fld(hlref.FUserLogin, hlref.Obfuscate([]byte("creator"))), sfld(hlref.FUserName, "Creator"), fld(hlref.FUserAccess, creator[:]), fld(hlref.FUserPassword, []byte{0})); !okReply(r) {
+				rt.Fatalf("harness: set-user refused")
+			}
+			settle(0)
+		}
 		var r *hlref.Tran
 		switch path {
 		case "new-user":
@@ -153,12 +171,13 @@ func TestC06Create(t *testing.T) {
 			req = cd
 			req.Set(rapid.SampledFrom([]int{19, 41, 42, 47, 48, 55, 56, 63}).Draw(rt, "undef"))
 		}
-		created := c06create(rt, creator, req, path)
+		via := rapid.SampledFrom([]string{"", "", "setuser"}).Draw(rt, "via")
+		created := c06create(rt, creator, req, path, via)
 		lab := "refused"
 		if created {
 			lab = "created"
 		}
-		ev.Case(evid.Hash(cd[:], req[:], path), !subset(req, cd), "create:"+lab, "mode:"+mode, "path:"+path)
+		ev.Case(evid.Hash(cd[:], req[:], path, via), !subset(req, cd), "create:"+lab, "mode:"+mode, "path:"+path, "creator-privileges-via:"+via)
 		if ev.WantSample() && !subset(req, cd) {
 			ev.Sample(map[string]any{"creator": bitsOf(cd), "requested": bitsOf(req), "path": path, "outcome": lab})
 		}
@@ -231,13 +250,46 @@ func TestC06Kick(t *testing.T) {
 			accounts = append(accounts, hlsim.AccountSpec{Login: fmt.Sprintf("t%d", i), Name: fmt.Sprintf("T%d", i), Password: "tpw", Access: b})
 		}
 		anyProtBan := false
+		// in a third of the cases the protection bit reaches the targets through an administrator's set-user while each
+		// target account is logged in twice and the disconnect request is aimed at the later session
+		flip := rapid.IntRange(0, 2).Draw(rt, "protectionViaSetUser") == 0
+		if flip {
+			accounts = append(accounts, acct("super", "Super", "spw", allAccess))
+			for i := range ts {
+				b := ts[i].bits
+				if ts[i].protected {
+					b.Clear(hlref.PrivCannotBeDiscon)
+				} else {
+					b.Set(hlref.PrivCannotBeDiscon)
+				}
+				accounts[1+i].Access = b // the opposite of what the set-user will establish
+			}
+		}
 		inWorld(rt, hlsim.Options{Agreement: "a", Accounts: accounts}, func(rt *rapid.T, w *hlsim.World) {
 			admin := loginAs(rt, w, "10.0.0.1:1", "admin", "adminpw", "admin")
 			for i, tg := range ts {
 				tg.conn = loginAs(rt, w, tg.addr+":5000", fmt.Sprintf("t%d", i), "tpw", fmt.Sprintf("t%d", i))
 			}
+			if flip {
+				// ids so far: admin 1, targets 2..nt+1; now the second sessions nt+2..2nt+1, then the editor
+				for i, tg := range ts {
+					tg.addr = fmt.Sprintf("10.6.1.%d", i+1)
+					tg.conn = loginAs(rt, w, tg.addr+":5000", fmt.Sprintf("t%d", i), "tpw", fmt.Sprintf("t%d-second", i))
+				}
+				super := loginAs(rt, w, "10.0.0.2:1", "super", "spw", "super")
+				for i, tg := range ts {
+					if r := super.Request(hlref.TranSetUser, fld(hlref.FUserLogin, hlref.Obfuscate([]byte(fmt.Sprintf("t%d", i)))), sfld(hlref.FUserName, fmt.Sprintf("T%d", i)), fld(hlref.FUserAccess, tg.bits[:]), fld(hlref.FUserPassword, []byte{0})); !okReply(r) {
+						rt.Fatalf("harness: set-user refused")
+					}
+				}
+				settle(0)
+			}
 			for i, tg := range ts {
-				fs := []hlref.Field{fld(hlref.FUserID, hlref.BE16(i+2))}
+				id := i + 2
+				if flip {
+					id = nt + 2 + i
+				}
+				fs := []hlref.Field{fld(hlref.FUserID, hlref.BE16(id))}
 				if tg.option != 0 {
 					fs = append(fs, fld(hlref.FOptions, hlref.BE16(tg.option)))
 				}
